@@ -131,6 +131,13 @@ def grid_shapes():
                 for kinds in (["key"] * n_in, ["gen"] + ["key"] * (n_in - 1)):
                     out.append(dict(version=2, in_kinds=kinds, ring=ring, out_tagged=[i % 2 == 1 for i in range(n_out)],
                                     rct_type=t, n_proofs=1, lr=(6, 6)))
+    # "wide base" shapes: few inputs, many outputs, tiny ring, short proofs, so that the serialised RingCT base is LONGER
+    # than the prunable part (real transactions are the other way round)
+    for t in (3, 4, 5, 6):
+        for n_proofs, lr in ((0, (0, 0)), (1, (0, 0)), (1, (1, 1))):
+            for n_out in (16, 17, 40):
+                out.append(dict(version=2, in_kinds=["key"], ring=1, out_tagged=[i % 2 == 0 for i in range(n_out)],
+                                rct_type=t, n_proofs=n_proofs, lr=lr))
     for ring in (1, 2, 11):
         for n_in in (0, 1, 2, 3):
             for n_out in (0, 1, 3):
